@@ -97,33 +97,36 @@ def long_prefix_part(v, univ, keep, gens, quick):
                     for e in range(1, c["u1"]["cur"] + 1):
                         for blocks in ((1,) if quick else (1, 2)):
                             pre = 4096 * blocks - e
-                            data = bytes([238]) * pre + raw + b"\xee\xee"
-                            for kind in ("bytes", "file"):
-                                src = data if kind == "bytes" else SeekableFile(io.BytesIO(data))
-                                endc = [None]
-                                base = cls.unpack_impl
+                            # what precedes the start offset: a filler byte, or the input's own first byte over and over (a prefix that
+                            # ends in a piece of the input's delimiter)
+                            for fill in sorted({238, raw[0] if raw else 238}):
+                                data = bytes([fill]) * pre + raw + b"\xee\xee"
+                                for kind in (("bytes", "file") if fill == 238 else ("bytes",)):
+                                    src = data if kind == "bytes" else SeekableFile(io.BytesIO(data))
+                                    endc = [None]
+                                    base = cls.unpack_impl
 
-                                def impl(self, raw_, offset, _b=base, **k):
-                                    r = _b(self, raw_, offset, **k)
-                                    if k.get("root") is self:
-                                        endc[0] = r
-                                    return r
-                                cls.unpack_impl = impl
-                                try:
+                                    def impl(self, raw_, offset, _b=base, **k):
+                                        r = _b(self, raw_, offset, **k)
+                                        if k.get("root") is self:
+                                            endc[0] = r
+                                        return r
+                                    cls.unpack_impl = impl
                                     try:
-                                        p = cls.unpack(src, pre)
-                                        got = ("done", observe.abs_packet(p), endc[0] - pre)
-                                    except observe.PacketError as ex:
-                                        got = ("fail", str(ex)[:120], None)
-                                    except Exception as ex:
-                                        got = ("escape", type(ex).__name__, None)
-                                finally:
-                                    cls.unpack_impl = base
-                                n += 1
-                                if got != want and len(v.violations) < 50:
-                                    v.violation("C14_LongPrefix" if kind == "bytes" else "C14_FileBacked",
-                                                "unpack(raw) gives %r; with %d bytes in front (%s input) it gives %r" % (want, pre, kind, got),
-                                                {"declaration": d["prog"], "raw": c["raw"], "prefix": pre, "input": kind, "gen": gen})
+                                        try:
+                                            p = cls.unpack(src, pre)
+                                            got = ("done", observe.abs_packet(p), endc[0] - pre)
+                                        except observe.PacketError as ex:
+                                            got = ("fail", str(ex)[:120], None)
+                                        except Exception as ex:
+                                            got = ("escape", type(ex).__name__, None)
+                                    finally:
+                                        cls.unpack_impl = base
+                                    n += 1
+                                    if got != want and len(v.violations) < 50:
+                                        v.violation("C14_LongPrefix" if kind == "bytes" else "C14_FileBacked",
+                                                    "unpack(raw) gives %r; with %d bytes in front (%s input) it gives %r" % (want, pre, kind, got),
+                                                    {"declaration": d["prog"], "raw": c["raw"], "prefix": pre, "input": kind, "gen": gen})
     v.cov["long_prefix_runs"] = n
     v.cov["traces_validated_against_impl"] += n
 
@@ -138,6 +141,7 @@ def run(tier, seed):
     gens = [rp.GEN_OFF, None]
     univ = None
     keep_cases = {}
+    seen_ok = {}
     ctx = multiprocessing.get_context("fork")
     total = 0
     for w0 in range(0, nparts, 8):
@@ -165,7 +169,8 @@ def run(tier, seed):
         for c in cases:
             if c["u1"]["st"] == "done" and not c["u1"]["open"] and len(c["pre"]) == 0 and len(c["post"]) == 0:
                 k = keep_cases.setdefault(c["d"], [])
-                if len(k) < (3 if quick else 12) and (len(c["raw"]) + len(k)) % 2 == 0:
+                seen_ok[c["d"]] = seen_ok.get(c["d"], 0) + 1
+                if len(k) < (3 if quick else 12) and seen_ok[c["d"]] % 4 == 1:       # (every 4th successful parse of the declaration)
                     k.append(c)
         chunks = [cases[i:i + 200] for i in range(0, len(cases), 200)]
         mism = []
